@@ -38,7 +38,15 @@ def _run_variant(args):
     src = SourceSet(root, overlay)
     name = variant['name']
     try:
-        if variant.get('kind') == 'unparse':
+        if variant.get('kind') == 'transform':
+            from .transforms import TRANSFORMS
+            s2 = src
+            for rel in variant['rels']:
+                try:
+                    s2 = s2.with_overlay(rel, TRANSFORMS[variant['tname']](src.text(rel)))
+                except AnalysisError:
+                    return dict(name=name, status='skipped', why='file missing', t=0)
+        elif variant.get('kind') == 'unparse':
             s2 = src
             for rel in variant['rels']:
                 try:
@@ -84,6 +92,12 @@ def run_selftest(ctx):
         ctx.note('self-test: no variants registered for %s' % prop)
         return
     variants = [dict(v) for v in vmod.VARIANTS]
+    # generic semantics-preserving transformations of the modules the property's unparse variant names
+    from .transforms import TRANSFORMS
+    for v in list(variants):
+        if v.get('kind') == 'unparse':
+            for tname in sorted(TRANSFORMS):
+                variants.append(dict(name='%s@%s' % (tname, v['name']), kind='transform', tname=tname, rels=v['rels'], expect='silent'))
     base = _findings_of(prop, ctx.src)
     for v in variants:
         v['_base'] = base
